@@ -79,6 +79,10 @@ pub(crate) struct Circuit {
     success_count: usize,
     total_count: usize,
     slow_call_count: usize,
+    // Outcomes (is_failure, is_slow) of the calls currently in the count-based window
+    count_window: VecDeque<(bool, bool)>,
+    // Successful trial calls since entering half-open
+    half_open_successes: usize,
     // Time-based window tracking
     call_records: VecDeque<CallRecord>,
 }
@@ -109,6 +113,8 @@ impl Circuit {
             success_count: 0,
             total_count: 0,
             slow_call_count: 0,
+            count_window: VecDeque::new(),
+            half_open_successes: 0,
             call_records: VecDeque::new(),
         }
     }
@@ -171,6 +177,43 @@ impl Circuit {
         }
     }
 
+    /// Record an outcome in the count-based window, sliding out the oldest call when full.
+    fn push_count_based(&mut self, window_size: usize, is_failure: bool, is_slow: bool) {
+        self.count_window.push_back((is_failure, is_slow));
+        self.total_count += 1;
+        if is_failure {
+            self.failure_count += 1;
+        } else {
+            self.success_count += 1;
+        }
+        if is_slow {
+            self.slow_call_count += 1;
+        }
+        while self.count_window.len() > window_size.max(1) {
+            if let Some((old_failure, old_slow)) = self.count_window.pop_front() {
+                self.total_count -= 1;
+                if old_failure {
+                    self.failure_count -= 1;
+                } else {
+                    self.success_count -= 1;
+                }
+                if old_slow {
+                    self.slow_call_count -= 1;
+                }
+            }
+        }
+    }
+
+    fn clear_counts(&mut self) {
+        self.success_count = 0;
+        self.failure_count = 0;
+        self.total_count = 0;
+        self.slow_call_count = 0;
+        self.count_window.clear();
+        self.half_open_successes = 0;
+        self.call_records.clear();
+    }
+
     /// Calculate statistics from time-based window.
     fn time_based_stats(&self) -> (usize, usize, usize, usize) {
         let mut total = 0;
@@ -206,11 +249,7 @@ impl Circuit {
         // Update statistics based on window type
         match config.sliding_window_type {
             SlidingWindowType::CountBased => {
-                self.success_count += 1;
-                self.total_count += 1;
-                if is_slow {
-                    self.slow_call_count += 1;
-                }
+                self.push_count_based(config.sliding_window_size, false, is_slow);
             }
             SlidingWindowType::TimeBased => {
                 if let Some(window_duration) = config.sliding_window_duration {
@@ -260,11 +299,8 @@ impl Circuit {
 
         match self.state {
             CircuitState::HalfOpen => {
-                let success_count = match config.sliding_window_type {
-                    SlidingWindowType::CountBased => self.success_count,
-                    SlidingWindowType::TimeBased => self.time_based_stats().2,
-                };
-                if success_count >= config.permitted_calls_in_half_open {
+                self.half_open_successes += 1;
+                if self.half_open_successes >= config.permitted_calls_in_half_open {
                     self.transition_to(CircuitState::Closed, config);
                 }
             }
@@ -287,11 +323,7 @@ impl Circuit {
         // Update statistics based on window type
         match config.sliding_window_type {
             SlidingWindowType::CountBased => {
-                self.failure_count += 1;
-                self.total_count += 1;
-                if is_slow {
-                    self.slow_call_count += 1;
-                }
+                self.push_count_based(config.sliding_window_size, true, is_slow);
             }
             SlidingWindowType::TimeBased => {
                 if let Some(window_duration) = config.sliding_window_duration {
@@ -416,6 +448,8 @@ impl Circuit {
 
     pub fn reset<C>(&mut self, config: &CircuitBreakerConfig<C>) {
         self.transition_to(CircuitState::Closed, config);
+        // Already closed: still start from an empty window
+        self.clear_counts();
     }
 
     fn transition_to<C>(&mut self, state: CircuitState, config: &CircuitBreakerConfig<C>) {
@@ -470,11 +504,7 @@ impl Circuit {
         self.state = state;
         self.state_atomic.store(state as u8, Ordering::Release);
         self.last_state_change = std::time::Instant::now();
-        self.success_count = 0;
-        self.failure_count = 0;
-        self.total_count = 0;
-        self.slow_call_count = 0;
-        self.call_records.clear();
+        self.clear_counts();
     }
 
     fn evaluate_window<C>(&mut self, config: &CircuitBreakerConfig<C>) {
